@@ -226,34 +226,29 @@ def _sample_histories(tier, seed):
     return hs, plan, n
 
 
-def _signature(bad, diffs):
-    return L.diff_signature(diffs) + "|" + repr(sorted((n, L.short(v, 80)) for _i, n, v, _e in bad))
-
-
-def _shrink(history, sig, canon):
-    """Delete single events while the failure signature is preserved."""
-    cur = list(history)
-    changed = True
-    while changed and len(cur) > 1:
-        changed = False
-        cands = [cur[:i] + cur[i + 1:] for i in range(len(cur))]
-        results = L.run_many([_program(c) for c in cands], expect={"public": canon["hash"]})
-        for c, r in zip(cands, results):
-            bad, diffs = _check_history(c, r, canon)
-            if (bad or diffs) and L.diff_signature(diffs) == sig:
-                cur, changed = c, True
-                break
-    return cur
+def _components(bad, diffs):
+    """Failure components of one history: one per differing group (keyed by its diff signature);
+    a value-only component when no digest differs."""
+    comps = {}
+    for g, d in diffs.items():
+        comps[("digest", g, L.diff_signature({g: d}))] = d
+    if not diffs:
+        for _i, n, v, _e in bad:
+            comps[("value", n, L.short(v, 80))] = None
+    return comps
 
 
 def task_histories(tier, seed, arg):
     t0 = time.time()
     canon = L.canonical()
     hs, plan, n = _sample_histories(tier, seed)
-    results = L.run_many([_program(h) for h in hs], expect={"public": canon["hash"]})
+    run_batch = lambda hists: L.run_many([_program(h) for h in hists],
+                                         expect={"public": canon["hash"]})
+    results = run_batch(hs)
     clusters = {}
     distinct = set()
     samples = []
+    failing = 0
     for h, res in zip(hs, results):
         bad, diffs = _check_history(h, res, canon)
         st = _state_summary(res)
@@ -264,36 +259,41 @@ def task_histories(tier, seed, arg):
                             "values": [L.short(v, 60) for v in res.get("results", [])],
                             "digest": "canonical" if not diffs else L.diff_text(diffs)})
         if bad or diffs:
-            sig = L.diff_signature(diffs) if diffs else _signature(bad, diffs)
-            clusters.setdefault(sig, []).append((h, bad, diffs, st))
+            failing += 1
+            for ck in _components(bad, diffs):
+                clusters.setdefault(ck, []).append(h)
+    reps = dict((ck, sorted(members, key=lambda m: (len(m), m))[0])
+                for ck, members in clusters.items())
+
+    def has_component(ck, h, res):
+        bad, diffs = _check_history(h, res, canon)
+        return ck in _components(bad, diffs)
+    minimal = L.shrink_all(reps, run_batch, has_component)
+    cks = sorted(minimal, key=lambda k: (k[0], k[1], minimal[k]))
+    finals = run_batch([minimal[ck] for ck in cks])
     violations, notes = [], []
-    for sig, members in sorted(clusters.items()):
-        members.sort(key=lambda m: (len(m[0]), m[0]))
-        h, bad, diffs, st = members[0]
-        if diffs:
-            hmin = _shrink(h, sig, canon)
-            if hmin != h:
-                res = L.run_program(_program(hmin), expect={"public": canon["hash"]})
-                bad, diffs = _check_history(hmin, res, canon)
-                st = _state_summary(res)
-        else:
-            hmin = h
-        what_groups = "+".join(sorted(diffs)) if diffs else "value"
+    for ck, res in zip(cks, finals):
+        hmin = minimal[ck]
+        bad, diffs = _check_history(hmin, res, canon)
+        st = _state_summary(res)
+        kind, what_g, _sig = ck
+        own = dict((g, d) for g, d in diffs.items() if g == what_g) if kind == "digest" else {}
         violations.append({
-            "key": "histories:%s:%s" % (what_groups, ">".join(hmin)),
+            "key": "histories:%s:%s" % (what_g if kind == "digest" else "value", ">".join(hmin)),
             "what": "after this history (then the canonical finisher) the public table does not "
-                    "serve the canonical values: %s" % (L.diff_text(diffs) or
+                    "serve the canonical values: %s" % (L.diff_text(own or diffs) or
                                                         "event value differs from canonical"),
             "input": {"history": hmin},
-            "observed": {"digest_diff": L.diff_text(diffs), "diff": diffs,
+            "observed": {"digest_diff": L.diff_text(own or diffs), "diff": own or diffs,
                          "values": [[x[1], L.short(x[2], 120)] for x in bad],
                          "state_after_events": st,
-                         "histories_with_this_signature": len(members),
-                         "examples": [">".join(m[0]) for m in members[:3]]},
+                         "histories_with_this_signature": len(clusters[ck]),
+                         "examples": [">".join(m) for m in
+                                      sorted(clusters[ck], key=lambda m: (len(m), m))[:3]]},
             "expected": {"digest": "canonical", "values": [[x[1], L.short(x[3], 120)] for x in bad]}})
-    notes.append("failing histories: %d of %d, clustered into %d causes by diff signature; each "
-                 "representative shrunk by single-event deletion"
-                 % (sum(len(m) for m in clusters.values()), len(hs), len(clusters)))
+    notes.append("failing histories: %d of %d; failures split per differing group and clustered by "
+                 "diff signature into %d causes; each representative shrunk by single-event deletion"
+                 % (failing, len(hs), len(clusters)))
     notes.append("wall %.1fs" % (time.time() - t0))
     return _result(
         "histories", len(hs), len(distinct),
